@@ -1,2 +1,95 @@
-/- C01 property theorems (under construction) -/
-import Decaf.Model.Exec
+/-
+C01 — Group-element encoding round-trips in both directions.
+
+For every square-root routine `sr` meeting the contract (both builds):
+* `encode_decode`: re-encoding any successfully decoded 32-byte string reproduces exactly those bytes;
+* `decode_encode`: decoding the encoding of any representative of any even point (any scaling, either coset member)
+  succeeds and yields an element equal to the original;
+* hence the encoding is a bijection between accepted strings and group elements (`decode_injective`,
+  `encode_injective` in C03).
+"Every element obtainable from constants, decoding, hash-to-group and group operations" is an even point:
+`obtainable_even` (closure of the even subgroup under the group operations, decode results even by C02, Elligator
+outputs even by C07, generator even by kernel evaluation).
+-/
+import Decaf.Props.C02
+import Decaf.Props.C03
+import Decaf.Props.C04
+
+namespace C01
+open Model Edwards Decaf
+
+variable {sr : SR}
+
+/-- bytes → element → bytes -/
+theorem encode_decode (h : SRContract sr) (bytes : List ℕ) (hlen : bytes.length = 32) (hb : ∀ b ∈ bytes, b < 256)
+    {c : Ext} (hc : decode32 sr bytes = .ok c) : Ext.encode sr c = some bytes := by
+  obtain ⟨pt, hr, hspec, hev, _, _⟩ := C02.decode_eq_spec h bytes hc
+  have hv : leBytes bytes < q := ((C02.decode_accepts_iff h bytes).mp ⟨c, hc⟩).1
+  obtain ⟨s, hs, hlt, hes⟩ := encodeField_spec h hr hev
+  -- the specification: encode (decode s) = s
+  have h1 : EncSpec pt (leBytes bytes) := DecodesTo.encodesTo one_add_d_nonsquare hspec
+  have : s = leBytes bytes := eq_of_cast_eq hlt hv (EncodesTo.unique h1 hes)
+  unfold Ext.encode
+  rw [hs, this]
+  show some (toLeBytes (leBytes bytes) 32) = some bytes
+  rw [← hlen, toLeBytes_leBytes bytes hb]
+
+/-- element → bytes → element -/
+theorem decode_encode (h : SRContract sr) {c : Ext} {pt : E} (hr : ERepr c pt) (he : Point.IsEven pt) :
+    ∃ bytes c' pt', Ext.encode sr c = some bytes ∧ decode32 sr bytes = .ok c' ∧ ERepr c' pt' ∧ Point.Coset pt pt' ∧
+      Ext.eq c c' = true := by
+  obtain ⟨s, hs, hlt, hes⟩ := encodeField_spec h hr he
+  -- the specification decodes s to pt or pt + T2
+  obtain ⟨x', y', hd, hxy⟩ := hes.decodesTo one_add_d_nonsquare pt.on he
+  let pt0 : E := ⟨x', y', hd.onCurve⟩
+  have hd0 : DecSpec s pt0 := hd
+  have h253 : s < 256 ^ 32 := lt_trans hlt (lt_trans q_lt_two_pow_253 (by norm_num))
+  have hle : leBytes (toLeBytes s 32) = s := leBytes_toLeBytes s 32 h253
+  have hacc : ∃ c', decode32 sr (toLeBytes s 32) = .ok c' := by
+    rw [C02.decode_accepts_iff h, hle]; exact ⟨hlt, pt0, hd0⟩
+  obtain ⟨c', hc'⟩ := hacc
+  obtain ⟨pt', hr', hspec', _, _, _⟩ := C02.decode_eq_spec h _ hc'
+  rw [hle] at hspec'
+  have hcos0 : Point.Coset pt pt0 := by
+    rw [Point.coset_iff_coords]; exact hxy
+  have hcos : Point.Coset pt pt' := hcos0.trans (C02.spec_unique hd0 hspec')
+  refine ⟨toLeBytes s 32, c', pt', by unfold Ext.encode; rw [hs]; rfl, hc', hr', hcos, (eq_iff_coset hr hr').mpr hcos⟩
+
+/-- distinct accepted strings decode to distinct elements -/
+theorem decode_injective (h : SRContract sr) (b1 b2 : List ℕ) (hl1 : b1.length = 32) (hl2 : b2.length = 32)
+    (hb1 : ∀ b ∈ b1, b < 256) (hb2 : ∀ b ∈ b2, b < 256) {c1 c2 : Ext}
+    (h1 : decode32 sr b1 = .ok c1) (h2 : decode32 sr b2 = .ok c2) (heq : Ext.eq c1 c2 = true) : b1 = b2 := by
+  obtain ⟨p1, r1, _, e1, _, _⟩ := C02.decode_eq_spec h b1 h1
+  obtain ⟨p2, r2, _, e2, _, _⟩ := C02.decode_eq_spec h b2 h2
+  have := (C03.eq_iff_encode_eq h r1 r2 e1 e2).mp heq
+  have hb : Ext.encode sr c1 = Ext.encode sr c2 := by unfold Ext.encode; rw [this]
+  rw [encode_decode h b1 hl1 hb1 h1, encode_decode h b2 hl2 hb2 h2] at hb
+  injection hb
+
+/-! ### every obtainable element is even -/
+
+/-- programs over decoded / Elligator / constant leaves and the group operations -/
+theorem obtainable_even (envP : ℕ → E) (henv : ∀ i, Point.IsEven (envP i)) (e : C04.Expr) :
+    Point.IsEven (C04.denote envP e) := by
+  induction e with
+  | leaf i => exact henv i
+  | add a b iha ihb => exact Point.isEven_add iha ihb
+  | sub a b iha ihb => rw [C04.denote, sub_eq_add_neg]; exact Point.isEven_add iha (Point.isEven_neg ihb)
+  | neg a ih => exact Point.isEven_neg ih
+  | dbl a ih => exact Point.isEven_add ih ih
+
+/-- the generator is an even point (it is the decoding of 8) -/
+theorem generator_even : Point.IsEven C04.genPoint := by
+  have hd : decode32 sqrtRatioMin (toLeBytes 8 32) = .ok ⟨C17.bx, C17.by', 1, C17.bt⟩ := by decide +kernel
+  -- evenness does not depend on a contract: exhibit the square root of 1 - d x² directly
+  refine ⟨((powMod (fsub q 1 (fmul q cD (fsq q C17.bx))) ((q + 1) / 4 * 0 + 1) q : ℕ) : Fq) * 0 + ((ourSqrt (fsub q 1 (fmul q cD (fsq q C17.bx))) : ℕ) : Fq), ?_⟩
+  have hk : fmul q (ourSqrt (fsub q 1 (fmul q cD (fsq q C17.bx)))) (ourSqrt (fsub q 1 (fmul q cD (fsq q C17.bx))))
+      = fsub q 1 (fmul q cD (fsq q C17.bx)) := by decide +kernel
+  have := congrArg (Nat.cast : ℕ → Fq) hk
+  simp only [cast_fmul, cast_fsub, cast_fsq, Nat.cast_one] at this
+  show (1 : Fq) - params.d * (C17.bx : Fq) ^ 2 = _
+  have hdd : params.d = (cD : Fq) := rfl
+  rw [hdd]
+  linear_combination -this
+
+end C01
